@@ -534,6 +534,13 @@ class Fn:
         if fn == "str" and len(e.args) == 1:
             c, t = self.expr(e.args[0], env, pre)
             return self.to_str(c, t), "str"
+        if fn == "bytearray" and len(e.args) == 1:
+            c, t = self.expr(e.args[0], env, pre)
+            if t != "int":
+                raise Unsupported("bytearray() of " + str(t))
+            v = self.fresh()
+            pre.append(f"let {v} ← PyT.bytearrayZeros {c}")
+            return v, "bytes"
         if fn == "ord" and len(e.args) == 1:
             a = e.args[0]
             if isinstance(a, ast.Constant) and isinstance(a.value, str) and len(a.value) == 1:
@@ -602,6 +609,8 @@ class Fn:
             elif isinstance(t, ast.Tuple):
                 for x in t.elts:
                     tgt(x)
+            elif isinstance(t, ast.Subscript) and isinstance(t.value, ast.Name):
+                tgt(t.value)      # buf[i] = x updates buf
         for s in stmts:
             for n in ast.walk(s):
                 if isinstance(n, ast.Assign):
@@ -656,6 +665,16 @@ class Fn:
                 target = s.target
                 code, t = self.binop(ast.BinOp(left=s.target, op=s.op, right=s.value), env, pre)
             env2 = dict(env)
+            if isinstance(target, ast.Subscript) and isinstance(target.value, ast.Name) and env.get(target.value.id) == "bytes" \
+                    and not isinstance(target.slice, ast.Slice):
+                # buf[i] = x / buf[i] op= x on a bytearray: the updated buffer (IndexError / ValueError as bytearray raises them)
+                if t != "int":
+                    raise Unsupported("bytearray item of type " + str(t))
+                idx, it = self.expr(target.slice, env, pre)
+                if it != "int":
+                    raise Unsupported("non-int index")
+                b = lname(target.value.id)
+                return pre + [f"let {b} ← PyT.setByte {b} {idx} {code}"] + cont(env2)
             if isinstance(target, ast.Name):
                 env2[target.id] = t
                 return pre + [f"let {lname(target.id)} : {lean_type(t)} := {code}"] + cont(env2)
@@ -1069,6 +1088,13 @@ TARGETS = [
      "until": ("return float(f'{mantissa}E{exp}')", ["sign", "mantissa", "exp"]),
      "assume": "everything before the final float(f'{mantissa}E{exp}') is translated (the correctly rounded decimal -> binary64 "
                "conversion stays a parameter)"},
+    {"group": "Dec128", "module": "numbers_parser.cell", "qualname": "_pack_decimal128", "lean": "pack_decimal128",
+     "params": [("sign", "int"), ("mantissa", "int"), ("exponent", "int")], "ret": "bytes", "module_consts": True,
+     "skip": ["sign, digits, exponent = _DECIMAL128_CONTEXT.create_decimal(str(value)).as_tuple()",
+              "mantissa = int(''.join((str(d) for d in digits)))"],
+     "fuel": ["mantissa.toNat + 1"],
+     "assume": "translated from the decimal triple on: decimal.Context(prec=34).create_decimal(str(value)).as_tuple() and the "
+               "joining of its digits into an int are supplied by the harness as the parameters sign, mantissa, exponent"},
     # ---- C14: date directives with arithmetic of their own, the quote scanners, duration units --------------------------
     {"group": "DateFmt", "module": "numbers_parser.constants", "qualname": "_day_of_year", "lean": "day_of_year",
      "params": [("yday", "int")], "ret": "int",
